@@ -98,7 +98,13 @@ def build_probe():
 
 def regenerate_tables():
     """E0: evaluate the implementation's finite-domain functions and rewrite the table module"""
-    out = run([PROBE_BIN, "tables"], check=True).stdout
+    pr = run([PROBE_BIN, "tables"])
+    if pr.returncode != 0:
+        # the implementation's finite-domain functions could not even be evaluated on the current
+        # source (they crashed): E0 cannot be regenerated, the tie is broken
+        raise TieBroken("the probe crashed while evaluating the implementation's finite-domain functions (`tables`):\n"
+                        + (pr.stderr or "")[-3000:])
+    out = pr.stdout
     path = os.path.join(LEAN, "MinkModel", "Generated", "Tables.lean")
     old = open(path).read() if os.path.exists(path) else None
     if old != out:
